@@ -36,6 +36,7 @@ OBLIGATIONS = [
     "VgiVerif.C22.C22_verify",
     "VgiVerif.C22.C22",
     "VgiVerif.C22.C22_history",
+    "VgiVerif.C22.C22_history_from_empty",
     "VgiVerif.C22.C22_total",
     "VgiVerif.C22.C22_require_uniform",
     "VgiVerif.C22.C22_allow_reports",
@@ -624,7 +625,7 @@ def run(ctx: Any) -> None:
         k_cache(ctx)
         for sess in corpus_sessions():
             run_session(ctx, sess)
-        n_req = ctx.budget(20000, 500000)
+        n_req = ctx.budget(20000, 350000)
         if ctx.source_drift and not ctx.deep and ctx.tier != "thorough":
             n_req *= 3  # the extracted shapes changed: look harder
         done = 0
